@@ -352,6 +352,9 @@ func runC12(c *Ctx) {
 	// Read/Write/ReadFrom/WriteTo add the count of their helper to the offset: a helper that counts bytes it did not
 	// move, or that asks for another place than start+cursor (in 64 bits), leaves the offset where os.File would not
 	checkWriteChunkCountsOnlyAcknowledged(c, "R14")
+	// R15 (shared with C20.Z8) / R16 (shared with C01.R13)
+	checkWorkerCountBounded(c, "R15")
+	checkAppendStartsAtEnd(c, "R16")
 	c.withRule("R13", func() {
 		c01TransferSitesOnly = true
 		defer func() { c01TransferSitesOnly = false }()
@@ -529,6 +532,8 @@ func runC13(c *Ctx) {
 	// and the reducers report the full length with a nil error
 	checkWorkerCountBounded(c, "R18")
 	checkWriteChunkCountsOnlyAcknowledged(c, "R19")
+	// R20 (shared with C01.R20): a server that answers a failed read with short DATA makes the client report a short count without the error
+	checkReadReplyTruthTable(c, "R20")
 
 	// R7: ReadFrom / ReadFromWithConcurrency leave the File offset at the end of the intact prefix
 	checkOffsetStores(c, "R7", map[string]bool{"(*File).ReadFrom": true, "(*File).readFromWithConcurrency": true})
